@@ -1293,7 +1293,43 @@ class Executor:
         yield self.comp_value(e, st), st
 
     def ev_ListComp(self, e, st):
+        want = getattr(self, "expect_type", None)
+        if isinstance(e.elt, ast.List) and len(e.generators) == 1 and not e.generators[0].ifs \
+                and isinstance(want, List) and isinstance(want.elt, List):
+            yield self.bulk_list_of_lists(e, st, want), st
+            return
         yield ("listcomp", self.comp_value(e, st)), st
+
+    def bulk_list_of_lists(self, e, st, want):
+        """[[a, b, ..] for x in src]: len(src) freshly allocated inner lists (bulk allocation)."""
+        inner_t = want.elt
+        view, bind, ifs, s1 = self.comp_view(e, st)
+        st.pc[:] = s1.pc
+        n = view.length
+        st.assume(n >= 0)
+        base = st.next_ref
+        st.next_ref = st.next_ref + n
+        k = len(e.elt.elts)
+        r = fresh("r", z3.IntSort())
+        inr = z3.And(base <= r, r < base + n)
+        nm = inner_t.name()
+        len_arr = self.heap.get(st, ("len", nm))
+        new_len = fresh("blen", len_arr.sort())
+        st.assume(z3.ForAll([r], z3.Select(new_len, r) == z3.If(inr, k, z3.Select(len_arr, r))))
+        self.heap.set(st, ("len", nm), new_len)
+        el_arr = self.heap.get(st, ("elem", nm, inner_t.elt))
+        new_el = fresh("belem", el_arr.sort())
+        st.assume(z3.ForAll([r], z3.Implies(z3.Not(inr), z3.Select(new_el, r) == z3.Select(el_arr, r))))
+        for j, item in enumerate(e.elt.elts):
+            i = fresh("bi", z3.IntSort())
+            s2 = bind(i, st)
+            v, _ = self.ev1(item, s2)
+            vz = self.coerce(v, inner_t.elt, st).z
+            st.assume(z3.ForAll([i], z3.Implies(z3.And(0 <= i, i < n), z3.Select(z3.Select(new_el, base + i), j) == vz)))
+        self.heap.set(st, ("elem", nm, inner_t.elt), new_el)
+        outer = self.alloc(st, want)
+        self.list_extend(st, outer, View(n, lambda i: Val(inner_t, base + i), inner_t, distinct=True))
+        return outer
 
     def ev_SetComp(self, e, st):
         """{x for x in src if cond}: a new set given by its membership predicate (elt must be the loop variable)."""
